@@ -56,9 +56,15 @@ def extract():
     if rc != 0:
         m = re.search(r"translate:(\S+?):? ", (err + out) + " ")
         item = m.group(1) if m else "translator-crashed"
-        props = sorted({p for key, ps in TRANSLATED_FILES.items() if key in item for p in ps}) or sorted({p for ps in TRANSLATED_FILES.values() for p in ps})
-        info.setdefault("broken", []).append({"group": "translated leaf functions", "item": "translate:" + item,
-                                               "msg": (err + out)[-400:], "properties": props})
+        fn = re.split(r"[.:]+", item)[-1]
+        if fn in TRANSLATED_SOFT:
+            # the letter functions are exercised by every text of every case: not readable => drift (wider search)
+            info.setdefault("drift", []).append({"item": "translate:" + item, "pattern": (err + out)[-200:], "kept_last_good": "Gen/Fns.lean"})
+        else:
+            props = TRANSLATED_FNS.get(fn) or sorted({p for key, ps in TRANSLATED_FILES.items() if key in item for p in ps}) \
+                or sorted({p for ps in TRANSLATED_FILES.values() for p in ps})
+            info.setdefault("broken", []).append({"group": "translated leaf functions", "item": "translate:" + item,
+                                                   "msg": (err + out)[-400:], "properties": props})
     return info
 
 
@@ -384,7 +390,15 @@ def changed_sources():
 
 
 LAST_EXTRACT = {}
-# which properties' theorems (Props/Cxx "Translation tie") consume the translated functions of a source file
+# which properties' theorems (Props/Cxx "Translation tie") consume a translated function (by name), else by source file;
+# the translator writes nothing when ONE function cannot be parsed, so the others keep their last generated definitions
+TRANSLATED_SOFT = {"as_char_ascii", "from_char_ascii", "as_str_pgn", "as_char"}
+TRANSLATED_FNS = {
+    "material_value": ["C09", "C16"], "as_index": ["C04", "C05"], "score": ["C16"], "hash": ["C04", "C05", "C15"],
+    "is_tactical_move": ["C09"], "index_history": ["C08", "C15"], "move_score": ["C09", "C15", "C19"],
+    "new_assert": ["C15"], "add_unsafe": ["C15"], "new_unsafe": ["C15"], "as_usize": ["C04", "C15"],
+    "ENDGAME_THRESHOLD": ["C16"],
+}
 TRANSLATED_FILES = {
     "gamestate.rs": ["C02", "C04", "C05", "C15"], "position.rs": ["C01", "C02", "C04", "C15"],
     "piece.rs": ["C04", "C05", "C09", "C11", "C15", "C16", "C17", "C20"], "move_struct.rs": ["C08", "C09", "C15"],
